@@ -394,7 +394,30 @@ def tr_from_dict_value(tree):
     if has_num and consts.get('VALID_NUMBER_SOURCES') != ast.dump(ast.parse(
             'six.integer_types + (float, decimal.Decimal, six.text_type, six.binary_type)', mode='eval').body):
         raise TranslateError('HierDictDocument.VALID_NUMBER_SOURCES is not (int, float, Decimal, str, bytes)')
-    return ('(* a non-text value for a ByteArray (or date / time / duration / uuid) member is refused under every validator *)\n'
+    # empty_is_none: which nodes are read as null
+    ein = [x for x in seq[:i] if isinstance(x, ast.If) and 'empty_is_none' in ast.dump(x.test)]
+    if len(ein) != 1 or ein[0].orelse or [ast.dump(x) for x in ein[0].body] != tmpl('inst = None'):
+        raise TranslateError('_from_dict_value: expected one `if cls_attrs.empty_is_none and ...: inst = None` before the decoding')
+    t = ein[0].test
+    ok = (isinstance(t, ast.BoolOp) and isinstance(t.op, ast.And) and len(t.values) == 2
+          and attr_chain(t.values[0]) == ['cls_attrs', 'empty_is_none']
+          and isinstance(t.values[1], ast.Compare) and len(t.values[1].ops) == 1 and isinstance(t.values[1].ops[0], ast.In)
+          and isinstance(t.values[1].left, ast.Name) and t.values[1].left.id == 'inst'
+          and isinstance(t.values[1].comparators[0], ast.Tuple))
+    if not ok:
+        raise TranslateError('_from_dict_value: empty_is_none is not decided by `inst in (<constants>)`')
+    members = []
+    for e in t.values[1].comparators[0].elts:
+        if not (isinstance(e, ast.Constant) and e.value in ('', b'') and isinstance(e.value, (str, bytes))):
+            raise TranslateError('_from_dict_value: empty_is_none reads something other than the empty text as null: %s' % ast.dump(e))
+        members.append(type(e.value))
+    if seq.index(ein[0]) < max([seq.index(x) for x in seq[:i] if ast.dump(x) in (gtext, gnum)] or [-1]):
+        raise TranslateError('_from_dict_value: empty_is_none acts before the source guards')
+    ein_text = ('(* empty_is_none: `inst in (...)`: the members of the tuple *)\n'
+                'Definition ein_empty_str : bool := %s.\nDefinition ein_empty_bytes : bool := %s.\n'
+                % (TRUE if str in members else FALSE, TRUE if bytes in members else FALSE))
+    return (ein_text +
+            '(* a non-text value for a ByteArray (or date / time / duration / uuid) member is refused under every validator *)\n'
             'Definition binary_source_checked : bool := %s.\n'
             '(* a value that is not a number or text (a list, a map, a tuple) for an Integer / Double / Decimal member is refused *)\n'
             'Definition number_source_checked : bool := %s.\n' % (TRUE if has_text else FALSE, TRUE if has_num else FALSE) +
@@ -491,6 +514,34 @@ def tr_deserialize(tree):
             'Definition bare_body_under_message_name : bool := %s.\n'
             '(* {"method": null}: every argument is absent ([None] * n) instead of _doc_to_object(None) = [] *)\n'
             'Definition null_body_absent_args : bool := %s.\n' % (v, bare, null_absent))
+
+
+def tr_bytearray_base64(tree):
+    """spyne/model/binary.py ByteArray.to_base64: a value of several chunks is encoded as ONE text, that of the
+    concatenation (chunk by chunk would pad in the middle)"""
+    fn = find_function(tree, ['ByteArray', 'to_base64'])
+    body = strip_doc(fn.body)
+    if not body or not isinstance(body[-1], ast.Return):
+        raise TranslateError('ByteArray.to_base64: does not end with a return')
+    if ast.dump(body[-1].value) != ast.dump(ast.parse("b64encode(b''.join(value))", mode='eval').body):
+        raise TranslateError('ByteArray.to_base64: a sequence of chunks is not encoded as b64encode(b\'\'.join(value))')
+    one = ast.dump(ast.parse('if isinstance(value, (six.binary_type, memoryview, mmap)):\n    return b64encode(value)').body[0])
+    mm = (ast.dump(ast.parse('if isinstance(value, (list, tuple)) and len(value) > 0 and isinstance(value[0], mmap):\n'
+                             '    return b64encode(value[0])').body[0]),
+          ast.dump(ast.parse('if isinstance(value, (list, tuple)) and isinstance(value[0], mmap):\n'
+                             '    return b64encode(value[0])').body[0]))
+    rest = [ast.dump(x) for x in body[:-1]]
+    if one not in rest or any(r != one and r not in mm for r in rest):
+        raise TranslateError('ByteArray.to_base64: unrecognised special cases')
+    empty_ok = TRUE if (mm[1] not in rest) else FALSE
+    imp = [n for n in tree.body if isinstance(n, ast.ImportFrom) and n.module == 'base64'
+           and any(a.name == 'b64encode' and a.asname is None for a in n.names)]
+    if not imp:
+        raise TranslateError('binary.py: b64encode is not base64.b64encode')
+    return ('(* ByteArray.to_base64: the text of a value of several chunks is that of their concatenation *)\n'
+            'Definition bytes_encoded_as_one : bool := true.\n'
+            '(* ... and a value of no chunks at all is not looked into (value[0]) *)\n'
+            'Definition bytes_no_chunks_ok : bool := %s.\n' % empty_ok)
 
 
 def tr_rpc_envelope(tree):
@@ -675,6 +726,8 @@ def generate(repo):
     out.append(tr_from_dict_value(t_hier))
     out.append(tr_deserialize(t_hier))
     out.append(tr_rpc_envelope(t_mp))
+    binm, t_bin = module_tree('spyne.model.binary', repo)
+    out.append(tr_bytearray_base64(t_bin))
     out.append(tr_check_freq(t_base))
     rows, facts = handler_rows()
     tags = sorted(set(r.split(', ')[-1].rstrip(')') for r in rows) | set(
